@@ -6,6 +6,11 @@ import ObiVerif.Lemmas.ApatComp
 import ObiVerif.Lemmas.ApatIndelOblig
 import ObiVerif.Lemmas.ApatBest
 import ObiVerif.Lemmas.ApatGrammar
+import ObiVerif.Lemmas.ApatGrammarX
+import ObiVerif.Lemmas.ApatComplete
+import ObiVerif.Lemmas.ApatIupacSeq
+import ObiVerif.Lemmas.ApatPure
+import ObiVerif.Lemmas.ApatCircularAll
 /-!
 # C10 — primer pattern matching reports exactly the matching positions and error counts (property theorems)
 
@@ -56,15 +61,35 @@ Second deepening round, proved:
   linear sequence: every returned triple is within the budget and is a raw hit passed unchanged, or (indel mode) a span inside
   the sequence whose reported error count IS the edit distance between the pattern string and that span.
 
+Third round (second deepening pass), proved — see the section "round 2" at the end of this file:
+* `allMatches_complete`, `allMatches_complete_substring`, `bestMatch_complete`, `bestMatch_matched_iff`, `pure_pattern_complete`:
+  COMPLETENESS of `AllMatches` / `BestMatch` in indel mode on a linear sequence (the oracle `all.iff` of the first round is now a
+  theorem): every substring of the window within the budget gives a raw hit, every raw hit is represented by a hit kept by
+  `FilterBestMatch` (at most as many errors, linked by a chain of overlapping hits), the re-alignment fragment of a kept hit —
+  clipped at both ends of the sequence — contains a substring witnessing its error level, hence `LocatePattern` returns a span
+  with at most as many errors, exactly its `_samenuc` distance, minimal over all substrings of the fragment, and the budget
+  filter keeps it.  Hypothesis `Compat`: `_samenuc` agrees with every acceptance of the compiled classes — true for
+  letters-only patterns without `X` (`pure_pattern_compat`), false for `X` (`samenuc_X_differs`, `x_pattern_dropped`: a
+  match within the budget is dropped by `AllMatches` and reported with more errors than the budget by `BestMatch`: proposed
+  finding).  `BestMatch` as repaired in this round (`C10-bestmatch-shifted-start`: a best hit with a shifted, negative start was
+  answered `matched = false`);
+* `samenuc_vs_compiled`, `seq_ambiguity_code_is_exact`, `seq_ambiguity_both_strands`: the IUPAC SEQUENCE side — a sequence symbol
+  that is not one of `a c g t` is an exact code word for the matcher (accepted by no un-negated position, by every negated one),
+  on both strands (`u` excepted: D34), whereas `_samenuc` treats it as a class (`errcount_differs_on_ambiguity`);
+* `makeApatPattern_guard`, `budget_in_bounds`, `budget_overrun_unguarded`: the budget guard of `buildPattern` (repaired in this
+  round, `C10-budget-overrun`: a budget ≥ 64 overran `r[2*MAX_PAT_ERR+2]`, SIGSEGV on the real code);
+* `compile_grammar_full`, `compile_codes_full`, `xposition_semantics`: `MakeApatPattern` accepts EXACTLY the strings of canonical
+  lists of extended positions `'!'* (Letter | '[' Letter+ ']' | '#') ['#']` — no `plain` hypothesis — and what they compile to
+  (`A##` = `A#` + an obligatory position accepting nothing; `!#` = obligatory "anything"; `!!A` = `A`);
+* circular `AllMatches` / `BestMatch` (known finding D35 stays open) — exact characterisation: `allMatches_circular_panic_iff`,
+  `allMatches_mismatch_is_filter` (exact / mismatch-only mode is not affected), `allMatches_circular_affected`,
+  `allMatches_circular_inside_ok`, `bestMatch_circular_char`, counterexamples `circular_*`.
+
 NOT proved / excluded (tied by the correspondence check and the harness oracle only, see lib/cfg/C10.py):
-* completeness of `AllMatches` in indel mode (a substring within the budget exists ⇒ something is returned): the re-alignment
-  fragment `[start - 2k, start + m + 2k)` is cut at the sequence ends and `LocatePattern` compares letters by `_samenuc` (IUPAC
-  classes intersect) while the automaton uses the compiled classes: equal for `acgt` sequences only; tied by the oracle `all.iff`;
-* strings accepted by `CheckPattern` outside the documented grammar: a `#` following a `#` is a position of its own and
-  `complementPattern` does NOT mirror such patterns (`complement_outside_grammar`: `A##A` ↦ `T##T`, `A##` ↦ rejected);
-  other exotic accepted strings (`!!A`, `!#`) are not covered by the theorem (all strings of length ≤ 7 over `A C [ ] ! #`
-  without `##` that compile were evaluated in the model: mirrored);
-* circular sequences in `AllMatches` / `BestMatch` (known finding D35); circular `FindAllIndex` is `Lemmas/ApatCircular.lean`.
+* `complementPattern` outside the documented grammar (`complement_outside_grammar`: `A##A` ↦ `T##T`, `A##` ↦ rejected);
+* `AllMatches` / `BestMatch` for patterns with `!`, `#`, `[`: `LocatePattern` compares the raw pattern string (documented
+  restriction of `AllMatches`); completeness is proved for letters-only patterns without `X`;
+* pattern length 64 (D33).
 -/
 namespace ObiVerif.Props.C10
 open ObiVerif ObiVerif.Apat
@@ -586,13 +611,15 @@ theorem allMatches_spec (P : Pattern) (seq : Bytes) (circular : Bool) (begin len
   Apat.allMatches_spec P seq circular begin length out h
 
 /-- **`BestMatch`** (`bestMatch_spec`) on a linear sequence: when a match is reported, the selected raw hit is a hit of minimal
-error level lying inside the sequence, and the result is that hit (no error, or mismatch-only mode) or — indel mode — a span
+error level ending inside the sequence — with a non-negative start, unless it is going to be re-aligned (indel mode, at least
+one error: the "shifted" start of the raw hit may be negative, `notes/patches/C10-bestmatch-shifted-start.diff`) —, and the
+result is that hit (no error, or mismatch-only mode) or — indel mode — a span
 inside the sequence whose reported error count is the edit distance between the pattern string and that span. -/
 theorem bestMatch_spec (P : Pattern) (seq : Bytes) (begin length : Int) (s e k : Int) (hmax : P.maxerr < 10000)
     (h : bestMatch P seq false begin length = .ok (s, e, k, true)) :
     let res := findAllIndex P seq false begin length
     res ≠ [] ∧ bestOf res ∈ res ∧ (∀ m ∈ res, (bestOf res).2.2 ≤ m.2.2) ∧
-      0 ≤ (bestOf res).1 ∧ (bestOf res).2.1 ≤ (seq.length : Int) ∧
+      (0 ≤ (bestOf res).1 ∨ (P.hasIndel = true ∧ (bestOf res).2.2 ≠ 0)) ∧ (bestOf res).2.1 ≤ (seq.length : Int) ∧
       (((s, e, k) = bestOf res ∧ ((bestOf res).2.2 = 0 ∨ P.hasIndel = false)) ∨
        (P.hasIndel = true ∧ (bestOf res).2.2 ≠ 0 ∧ SpanDist P seq (s, e, k))) :=
   Apat.bestMatch_spec P seq begin length s e k hmax h
@@ -656,5 +683,367 @@ example : (compile ([65, 67, 71, 84, 65] : Bytes) 1 true).toOption.map (fun P =>
     = some (.ok [(0, 4, 1)]) := by decide
 example : (compile ([65, 67, 71, 84, 65] : Bytes) 1 true).toOption.map (fun P => bestMatch P ([116, 116, 116, 97, 99, 116, 97, 116, 116] : Bytes) false 0 (-1))
     = some (.ok (3, 7, 1, true)) := by decide
+
+/-! ## round 2 — completeness of `AllMatches` / `BestMatch` (indel mode) -/
+
+/-- **completeness of `AllMatches`** (indel mode, linear sequence, no obligatory position, `Compat`: `_samenuc` agrees with every
+acceptance of the compiled classes).  Every raw hit `r` of `FindAllIndex` is represented by a hit `h` kept by `FilterBestMatch`
+— at most as many errors, linked to `r` through a chain of overlapping hits (`Linked`), touching `r` when it has as many
+errors — and `h` yields an element `x` of the result: `h` itself when it has no error, otherwise a span of the re-alignment
+fragment `[amStart h, amEnd h)` = `[max(h.start - 2k, 0), min(… + m + 4k, len))` carrying exactly its `_samenuc` edit distance to
+the pattern string (`SpanDist`), minimal over ALL substrings of the fragment and at most the error level `k` of `h`. -/
+theorem allMatches_complete (P : Pattern) (seq : Bytes) (begin length : Int) (out : List Hit)
+    (hi : P.hasIndel = true) (he : P.maxerr ≠ 0) (hmax : P.maxerr < 10000) (hm1 : 1 ≤ P.patlen) (hm : P.patlen ≤ 63)
+    (hno : ∀ a ∈ P.codes, oblig a = false) (hC : Compat P)
+    (hout : allMatches P seq false begin length = .ok out) :
+    ∀ r ∈ findAllIndex P seq false begin length,
+      ∃ h ∈ filterBestMatch P seq false begin length, ∃ x ∈ out,
+        h.2.2 ≤ r.2.2 ∧ Linked r h ∧ (h.2.2 = r.2.2 → Touch h r) ∧
+        allMatchStep P seq h = some x ∧ 0 ≤ x.2.2 ∧ x.2.2 ≤ h.2.2 ∧ (h.2.2 = 0 → x = h) ∧
+        (0 < h.2.2 → SpanDist P seq x ∧ amStart h ≤ x.1 ∧ x.2.1 ≤ amEnd P seq h ∧
+          ∀ a b : Nat, amStart h ≤ (a : Int) → a ≤ b → (b : Int) ≤ amEnd P seq h →
+            x.2.2 ≤ (editDist samenuc P.locPat ((seq.drop a).take (b - a)) : Nat)) :=
+  Apat.allMatches_complete P seq begin length out hi he hmax hm1 hm hno hC hout
+
+/-- **every substring within the edit budget is represented** (`allMatches_complete` in terms of substrings): for an end
+position `pos` of the search window and a start `a` such that the compiled edit distance `d` between the pattern and
+`seq[a .. pos]` is within the budget, the raw hit `(pos - m + 1, pos + 1, k)` exists with `k ≤ d` and is represented in the
+result of `AllMatches` as in `allMatches_complete`: by an `x` with `x.err ≤ h.err ≤ k ≤ d`. -/
+theorem allMatches_complete_substring (P : Pattern) (seq : Bytes) (begin length : Int) (out : List Hit)
+    (hi : P.hasIndel = true) (he : P.maxerr ≠ 0) (hmax : P.maxerr < 10000) (hm1 : 1 ≤ P.patlen) (hm : P.patlen ≤ 63)
+    (hno : ∀ a ∈ P.codes, oblig a = false) (hC : Compat P)
+    (hout : allMatches P seq false begin length = .ok out)
+    (pos a : Nat) (hb : winBegin begin ≤ a) (ha : a ≤ pos + 1) (hb' : winBegin begin ≤ pos) (hp : pos < winEnd seq begin length)
+    (hd : editDist accepts P.codes (((seq.map encodeByte).drop a).take (pos + 1 - a)) ≤ P.maxerr) :
+    ∃ k : Nat, k ≤ editDist accepts P.codes (((seq.map encodeByte).drop a).take (pos + 1 - a)) ∧
+      ((pos : Int) - P.patlen + 1, (pos : Int) + 1, (k : Int)) ∈ findAllIndex P seq false begin length ∧
+      ∃ h ∈ filterBestMatch P seq false begin length, ∃ x ∈ out,
+        h.2.2 ≤ (k : Int) ∧ Linked ((pos : Int) - P.patlen + 1, (pos : Int) + 1, (k : Int)) h ∧
+        (h.2.2 = (k : Int) → Touch h ((pos : Int) - P.patlen + 1, (pos : Int) + 1, (k : Int))) ∧
+        allMatchStep P seq h = some x ∧ 0 ≤ x.2.2 ∧ x.2.2 ≤ h.2.2 ∧ (h.2.2 = 0 → x = h) ∧
+        (0 < h.2.2 → SpanDist P seq x ∧ amStart h ≤ x.1 ∧ x.2.1 ≤ amEnd P seq h ∧
+          ∀ a b : Nat, amStart h ≤ (a : Int) → a ≤ b → (b : Int) ≤ amEnd P seq h →
+            x.2.2 ≤ (editDist samenuc P.locPat ((seq.drop a).take (b - a)) : Nat)) :=
+  Apat.allMatches_complete_substring P seq begin length out hi he hmax hm1 hm hno hC hout pos a hb ha hb' hp hd
+
+/-- why the representative is linked by a CHAIN and need not touch the raw hit: `FilterBestMatch` on three staggered hits
+keeps the last one only (sample evaluation) -/
+example : filterBest [(0, 10, 3), (2, 12, 2), (14, 24, 1)] = [(14, 24, 1)] ∧ ¬ Touch (14, 24, 1) (0, 10, 3) :=
+  touch_counterexample
+
+/-- **completeness of `BestMatch`** (as repaired: `C10-bestmatch-shifted-start`): whenever `FindAllIndex` reports something,
+`BestMatch` reports a match; its error count is at most the error level of EVERY raw hit (the minimum over all end
+positions of the window of the best substring ending there), it is the selected hit when that has no error, and otherwise a
+span of the fragment `[max(s - k, 0), min(s + m + k, len))` with its exact `_samenuc` distance, minimal over the fragment. -/
+theorem bestMatch_complete (P : Pattern) (seq : Bytes) (begin length : Int)
+    (hi : P.hasIndel = true) (he : P.maxerr ≠ 0) (hmax : P.maxerr < 10000) (hm1 : 1 ≤ P.patlen) (hm : P.patlen ≤ 63)
+    (hno : ∀ a ∈ P.codes, oblig a = false) (hC : Compat P)
+    (hne : findAllIndex P seq false begin length ≠ []) :
+    ∃ s e k, bestMatch P seq false begin length = .ok (s, e, k, true) ∧ 0 ≤ k ∧
+      k ≤ (bestOf (findAllIndex P seq false begin length)).2.2 ∧
+      (∀ m ∈ findAllIndex P seq false begin length, k ≤ m.2.2) ∧
+      ((bestOf (findAllIndex P seq false begin length)).2.2 = 0 →
+        (s, e, k) = bestOf (findAllIndex P seq false begin length)) ∧
+      ((bestOf (findAllIndex P seq false begin length)).2.2 ≠ 0 →
+        SpanDist P seq (s, e, k) ∧ bmStart (bestOf (findAllIndex P seq false begin length)) ≤ s ∧
+        e ≤ bmEnd P seq (bestOf (findAllIndex P seq false begin length)) ∧
+        ∀ a b : Nat, bmStart (bestOf (findAllIndex P seq false begin length)) ≤ (a : Int) → a ≤ b →
+          (b : Int) ≤ bmEnd P seq (bestOf (findAllIndex P seq false begin length)) →
+          k ≤ (editDist samenuc P.locPat ((seq.drop a).take (b - a)) : Nat)) :=
+  Apat.bestMatch_complete P seq begin length hi he hmax hm1 hm hno hC hne
+
+/-- **`BestMatch` reports a match iff `FindAllIndex` reports a hit** (indel mode, linear sequence; no `Compat` needed).
+False of the unrepaired code: the best raw hit of `ACGTACGT`, 2 errors, on `acgtcgtttttt` is `(-1, 7, 1)` and the answer was
+`matched = false` (witnesses in the harness corpus, oracle `best.iff`). -/
+theorem bestMatch_matched_iff (P : Pattern) (seq : Bytes) (begin length : Int)
+    (hi : P.hasIndel = true) (he : P.maxerr ≠ 0) (hmax : P.maxerr < 10000) (hm1 : 1 ≤ P.patlen) (hm : P.patlen ≤ 63)
+    (hc : P.patlen ≤ P.cpat.length) (hno : ∀ a ∈ P.codes, oblig a = false) :
+    (∃ s e k, bestMatch P seq false begin length = .ok (s, e, k, true)) ↔ findAllIndex P seq false begin length ≠ [] :=
+  Apat.bestMatch_matched_iff P seq begin length hi he hmax hm1 hm hc hno
+
+set_option maxRecDepth 100000 in
+/-- non-vacuity / test: the defect input of this round, in the repaired model -/
+example :
+    (compile ([65, 67, 71, 84, 65, 67, 71, 84] : Bytes) 2 true).toOption.map
+      (fun P => findAllIndex P ([97, 99, 103, 116, 99, 103, 116, 116, 116, 116, 116, 116] : Bytes) false 0 (-1))
+      = some [(-2, 6, 2), (-1, 7, 1), (0, 8, 2)] ∧
+    (compile ([65, 67, 71, 84, 65, 67, 71, 84] : Bytes) 2 true).toOption.map
+      (fun P => bestMatch P ([97, 99, 103, 116, 99, 103, 116, 116, 116, 116, 116, 116] : Bytes) false 0 (-1))
+      = some (.ok (0, 7, 1, true)) := by
+  refine ⟨?_, ?_⟩ <;> decide
+
+/-- under `CompatEq` (the two comparisons coincide on the bytes of the sequence: letters-only pattern without `X` on a sequence
+of bases, `pure_pattern_compat`) the error count of a reported span is the COMPILED edit distance of the encoded span -/
+theorem spanDist_is_compiled_distance (P : Pattern) (seq : Bytes) (hC : CompatEq P seq) (a n : Nat) :
+    editDist samenuc P.locPat ((seq.drop a).take n) = editDist accepts P.codes (((seq.drop a).take n).map encodeByte) :=
+  editDist_samenuc_eq P seq hC _ (fun _ hc => List.mem_of_mem_drop (List.mem_of_mem_take hc))
+
+/-- **letters-only patterns** (what `AllMatches` is documented for): a non-empty string of upper-case letters compiles to one
+position per letter with the `sDnaCode` class of the letter and no obligatory position, `LocatePattern` is handed the string
+itself; without the letter `X` the compiled pattern satisfies `Compat`, and `CompatEq` on every sequence of bases. -/
+theorem pure_pattern_compat (ls : Bytes) (hup : ∀ c ∈ ls, isUpper c = true) (hne : ls ≠ []) (hx : ∀ c ∈ ls, c ≠ 88)
+    (e : Nat) (b : Bool) :
+    compile ls e b = .ok (letterPattern ls e b) ∧ (letterPattern ls e b).patlen = ls.length ∧
+      (letterPattern ls e b).locPat = ls ∧ (∀ a ∈ (letterPattern ls e b).codes, oblig a = false) ∧
+      Compat (letterPattern ls e b) ∧
+      ∀ seq : Bytes, (∀ c ∈ seq, isBaseByte c = true) → CompatEq (letterPattern ls e b) seq :=
+  ⟨compile_letters ls hup hne e b, letterPattern_patlen ls e b, letterPattern_locPat ls e b,
+    letterPattern_no_oblig ls hup e b, letterPattern_compat ls hup hx e b,
+    fun seq hseq => letterPattern_compatEq ls hup hx e b seq hseq⟩
+
+/-- **completeness for the documented use**: a letters-only pattern without `X`, 1..63 letters, budget 1..9999, indels, on any
+linear sequence: `AllMatches` does not panic and whenever `FindAllIndex` reports a hit with `k` errors, `AllMatches` returns a
+match with at most `k` errors and `BestMatch` reports a match with at most `k` errors. -/
+theorem pure_pattern_complete (ls : Bytes) (hup : ∀ c ∈ ls, isUpper c = true) (hne : ls ≠ []) (hx : ∀ c ∈ ls, c ≠ 88)
+    (hlen : ls.length ≤ 63) (e : Nat) (he : e ≠ 0) (hmax : e < 10000) (seq : Bytes) (begin length : Int) :
+    ∃ P, compile ls e true = .ok P ∧ ∃ out, allMatches P seq false begin length = .ok out ∧
+      ∀ r ∈ findAllIndex P seq false begin length,
+        (∃ x ∈ out, x.2.2 ≤ r.2.2) ∧ ∃ s t k, bestMatch P seq false begin length = .ok (s, t, k, true) ∧ k ≤ r.2.2 := by
+  refine ⟨letterPattern ls e true, compile_letters ls hup hne e true, ?_⟩
+  have hm1 : 1 ≤ (letterPattern ls e true).patlen := by
+    rw [letterPattern_patlen]; exact List.length_pos_iff.2 hne
+  have hm : (letterPattern ls e true).patlen ≤ 63 := by rw [letterPattern_patlen]; exact hlen
+  have hcl : (letterPattern ls e true).patlen ≤ (letterPattern ls e true).cpat.length := by
+    rw [letterPattern_patlen]; exact Nat.le_refl _
+  have hno := letterPattern_no_oblig ls hup e true
+  have hC := letterPattern_compat ls hup hx e true
+  cases hout : allMatches (letterPattern ls e true) seq false begin length with
+  | panic => exact absurd hout (allMatches_total _ seq begin length hm1 hcl)
+  | ok out =>
+    refine ⟨out, rfl, ?_⟩
+    intro r hr
+    obtain ⟨h, _, x, hx', h1, _, _, _, _, h6, _⟩ :=
+      allMatches_complete _ seq begin length out rfl he hmax hm1 hm hno hC hout r hr
+    refine ⟨⟨x, hx', by omega⟩, ?_⟩
+    obtain ⟨s, t, k, hb, _, _, hall, _⟩ :=
+      bestMatch_complete _ seq begin length rfl he hmax hm1 hm hno hC (List.ne_nil_of_mem hr)
+    exact ⟨s, t, k, hb, hall r hr⟩
+
+/-- non-vacuity of `pure_pattern_complete` / `pure_pattern_compat`: `ACGTA` -/
+example : (∀ x ∈ ([65, 67, 71, 84, 65] : Bytes), isUpper x = true) ∧ ([65, 67, 71, 84, 65] : Bytes) ≠ [] ∧
+    (∀ x ∈ ([65, 67, 71, 84, 65] : Bytes), x ≠ 88) := by decide
+
+/-! ## round 2 — `_samenuc` against the compiled classes; ambiguity codes in the SEQUENCE -/
+
+/-- **the exact relation between `_samenuc` and the compiled IUPAC classes** (decided over the generated tables `_iupac`,
+`sDnaCode`; pattern letter `'A'+l`, sequence letter `'a'+c`): `_samenuc` is "the `_iupac` classes intersect"; when the sequence
+symbol is a base and the pattern letter is not `X` the two comparisons agree; for `X` the matcher accepts every base and
+`_samenuc` none; a sequence symbol that is not a base is in no compiled class; a non-letter byte is the same nucleotide as no
+pattern letter. -/
+theorem samenuc_vs_compiled :
+    (∀ l, l < 26 → ∀ c, c < 26 → samenuc (UInt8.ofNat (65 + l)) (UInt8.ofNat (97 + c)) =
+        decide ((Gen.alignIupac.getD l 0 &&& Gen.alignIupac.getD c 0) > 0)) ∧
+    (∀ l, l < 26 → ∀ c, c < 26 → isBaseSym c = true → l ≠ 23 →
+        samenuc (UInt8.ofNat (65 + l)) (UInt8.ofNat (97 + c)) = accepts (Gen.apatDnaCode.getD l 0) c) ∧
+    (∀ c, c < 26 → samenuc 88 (UInt8.ofNat (97 + c)) = false ∧ accepts (Gen.apatDnaCode.getD 23 0) c = isBaseSym c) ∧
+    (∀ l, l < 26 → ∀ c, c < 26 → isBaseSym c = false → accepts (Gen.apatDnaCode.getD l 0) c = false) ∧
+    (∀ l, l < 26 → ∀ n, n < 256 → ¬ (97 ≤ n ∧ n ≤ 122) → ¬ (65 ≤ n ∧ n ≤ 90) →
+        samenuc (UInt8.ofNat (65 + l)) (UInt8.ofNat n) = false) :=
+  ⟨samenuc_table_general, samenuc_table_base, samenuc_table_X, samenuc_table_nonbase, samenuc_nonletter⟩
+
+/-- `Compat` fails for the pattern letter `X` (the matcher accepts `a` for `X`, `_samenuc` does not) -/
+theorem samenuc_X_differs : accepts (Gen.apatDnaCode.getD 23 0) (encodeByte 97) = true ∧ samenuc 88 97 = false := by decide
+
+set_option maxRecDepth 100000 in
+/-- **counterexample (proposed finding): a pattern with `X`** — `AXGT`, budget 1, indels, on `ttacgattt`: `FindAllIndex` reports
+`acga` (1 error: `T`/`a`) among others, `AllMatches` returns NOTHING (the re-alignment counts the `X` as a second error and the
+budget filter drops the match) and `BestMatch` reports a match with 2 errors, more than the budget.  The real code gives the
+same three results (harness corpus; statistics `observed:all.x-pattern-match-dropped`). -/
+theorem x_pattern_dropped :
+    (compile ([65, 88, 71, 84] : Bytes) 1 true).toOption.map
+      (fun P => findAllIndex P ([116, 116, 97, 99, 103, 97, 116, 116, 116] : Bytes) false 0 (-1))
+      = some [(1, 5, 1), (2, 6, 1), (3, 7, 1), (4, 8, 1), (5, 9, 1)] ∧
+    (compile ([65, 88, 71, 84] : Bytes) 1 true).toOption.map
+      (fun P => allMatches P ([116, 116, 97, 99, 103, 97, 116, 116, 116] : Bytes) false 0 (-1)) = some (.ok []) ∧
+    (compile ([65, 88, 71, 84] : Bytes) 1 true).toOption.map
+      (fun P => bestMatch P ([116, 116, 97, 99, 103, 97, 116, 116, 116] : Bytes) false 0 (-1))
+      = some (.ok (2, 6, 2, true)) := by
+  refine ⟨?_, ?_, ?_⟩ <;> decide
+
+/-- **a sequence symbol that is not a base is an exact code word, not a class**: a position of the documented grammar accepts
+a sequence byte other than `a c g t` (ambiguity code `n r y …`, `u`, `x`, gap, digit, …) iff the position is negated — whatever
+its letters (`N` in a pattern does not accept `n` in the sequence; `!A` accepts it) -/
+theorem seq_ambiguity_code_is_exact (t : Tok) (ht : t.WF) (b : UInt8) (hb : isBaseByte b = false) :
+    accepts t.code (encodeByte b) = t.neg :=
+  seq_symbol_not_base t ht b hb
+
+/-- **both strands**: the `obiseq` complement of a lower-case/non-letter byte that is neither a base nor `u` is not a base
+either, and the complement of a base is a base — so a non-base symbol is accepted by exactly the negated positions on the
+reverse-complemented sequence too (with `match_revcomp`, whose hypothesis `c < 26 ∧ c ≠ 20` covers the ambiguity codes: strand
+symmetry holds on sequences with ambiguity codes).  `u` ↦ `a` is the exception (D34). -/
+theorem seq_ambiguity_both_strands :
+    (∀ n, n < 256 → isBaseByte (UInt8.ofNat n) = false → n ≠ 117 → ¬ (65 ≤ n ∧ n ≤ 90) →
+      isBaseByte (SeqOps.nucComplement (UInt8.ofNat n)) = false) ∧
+    (∀ n, n < 256 → isBaseByte (UInt8.ofNat n) = true → isBaseByte (SeqOps.nucComplement (UInt8.ofNat n)) = true) ∧
+    (isBaseByte 117 = false ∧ SeqOps.nucComplement 117 = 97 ∧ isBaseByte 97 = true) :=
+  ⟨complement_not_base, complement_base, complement_u⟩
+
+set_option maxRecDepth 100000 in
+/-- **observation: two error counts for one occurrence when the sequence carries an ambiguity code** — `ACGT`, budget 1, on
+`ttacntttt`: `FindAllIndex` (both modes) reports `acnt` with 1 error (`n` is an exact code word for the matcher), `AllMatches` /
+`BestMatch` in indel mode report it with 0 errors (`_samenuc`: `G` and `n` share a base).  The count of `AllMatches` is never
+larger (`allMatches_complete`).  Same on the real code (harness corpus). -/
+theorem errcount_differs_on_ambiguity :
+    (compile ([65, 67, 71, 84] : Bytes) 1 true).toOption.map
+      (fun P => findAllIndex P ([116, 116, 97, 99, 110, 116, 116, 116, 116] : Bytes) false 0 (-1)) = some [(2, 6, 1)] ∧
+    (compile ([65, 67, 71, 84] : Bytes) 1 true).toOption.map
+      (fun P => allMatches P ([116, 116, 97, 99, 110, 116, 116, 116, 116] : Bytes) false 0 (-1)) = some (.ok [(2, 6, 0)]) ∧
+    (compile ([65, 67, 71, 84] : Bytes) 1 true).toOption.map
+      (fun P => bestMatch P ([116, 116, 97, 99, 110, 116, 116, 116, 116] : Bytes) false 0 (-1))
+      = some (.ok (2, 6, 0, true)) := by
+  refine ⟨?_, ?_, ?_⟩ <;> decide
+
+/-! ## round 2 — the error budget guard -/
+
+/-- **`MakeApatPattern` as repaired rejects a budget ≥ `MAX_PAT_ERR` and is `compile` otherwise** -/
+theorem makeApatPattern_guard (pat : Bytes) (e : Nat) (b : Bool) :
+    (e ≥ Gen.apatMaxPatErr → makeApatPattern pat e b = .error .budget) ∧
+    (e < Gen.apatMaxPatErr → makeApatPattern pat e b = compile pat e b) := by
+  unfold makeApatPattern
+  constructor
+  · intro h; rw [if_pos h]
+  · intro h; rw [if_neg (by omega)]
+
+/-- **every pattern that `MakeApatPattern` returns keeps `ManberSub` / `ManberIndel` inside their `r[]` array**: the highest
+index touched, `2 * maxerr + 3`, is below the `2 * MAX_PAT_ERR + 2` words of the array -/
+theorem budget_in_bounds (pat : Bytes) (e : Nat) (b : Bool) (P : Pattern) (h : makeApatPattern pat e b = .ok P) :
+    rMaxIndex P.maxerr < rSize := by
+  unfold makeApatPattern at h
+  split at h
+  · cases h
+  · rename_i hlt
+    unfold compile at h
+    simp only at h
+    split at h
+    · cases h
+    · split at h
+      · cases h
+      · simp only [Except.ok.injEq] at h
+        subst h
+        show 2 * e + 3 < 2 * Gen.apatMaxPatErr + 2
+        omega
+
+/-- … and without the guard every budget ≥ `MAX_PAT_ERR` = 64 runs out of the array (the defect: SIGSEGV on the real code) -/
+theorem budget_overrun_unguarded (e : Nat) (h : e ≥ Gen.apatMaxPatErr) : rSize ≤ rMaxIndex e := by
+  unfold rSize rMaxIndex; omega
+
+example : Gen.apatMaxPatErr = 64 ∧ rSize = 130 ∧ rMaxIndex 63 = 129 ∧ rMaxIndex 64 = 131 := by decide
+
+/-- non-vacuity: budget 63 is accepted, 64 is not -/
+example : (makeApatPattern ([65, 67] : Bytes) 63 true).toOption.map Pattern.maxerr = some 63 ∧
+    (makeApatPattern ([65, 67] : Bytes) 64 true).toOption.map Pattern.maxerr = none := by
+  refine ⟨?_, ?_⟩ <;> decide
+
+/-! ## round 2 — the full pattern grammar (no `plain` hypothesis) -/
+
+/-- **`MakeApatPattern` accepts exactly the canonical lists of extended positions** `'!'* (Letter | '[' Letter+ ']' | '#') ['#']`
+(`XTok`; `Canon`: what the greedy tokenizer produces — a position starting with `#` only follows a position that carries its
+own `#`, and the first position does not start with `#`): `compile_grammar_iff` without the `plain` hypothesis. -/
+theorem compile_grammar_full (pat : Bytes) (e : Nat) (b : Bool) :
+    (∃ P, compile pat e b = .ok P) ↔
+      ∃ ts : List XTok, (∀ t ∈ ts, t.WF) ∧ ts ≠ [] ∧ Canon ts ∧ upperSeq (cString pat) = xpatStr ts :=
+  compile_iff_x pat e b
+
+/-- … and what they compile to: one code word per extended position -/
+theorem compile_codes_full (pat : Bytes) (e : Nat) (b : Bool) (P : Pattern) (h : compile pat e b = .ok P)
+    (ts : List XTok) (hwf : ∀ t ∈ ts, t.WF) (hne : ts ≠ []) (hc : Canon ts) (heq : upperSeq (cString pat) = xpatStr ts) :
+    P.codes = ts.map XTok.code ∧ P.cpat = xpatStr ts ∧ P.maxerr = e ∧ P.hasIndel = b :=
+  compile_codes_x pat e b P h ts hwf hne hc heq
+
+/-- **meaning of an extended position**: it accepts the symbol `c` iff its body does (a letter: its IUPAC class; a bracket: the
+union; a bare `#`: nothing), negated when the number of `!` is odd; it is obligatory iff it carries `#` or its body is `#` -/
+theorem xposition_semantics (t : XTok) (ht : t.WF) (c : Nat) (hc : c < 26) :
+    accepts t.code c = (t.body.acc c ^^ (t.bangs % 2 == 1)) ∧ oblig t.code = (t.oblig || t.body.isHash) :=
+  xtok_semantics t ht c hc
+
+/-- the documented grammar is the sub-case `bangs ≤ 1`, no `#` body: a plain string has only such positions -/
+theorem plain_is_documented (ts : List XTok) (hc : Canon ts) (hpl : plain (xpatStr ts) = true) :
+    ∀ t ∈ ts, t.bangs ≤ 1 ∧ t.body.isHash = false :=
+  plain_tokens_documented ts hc hpl
+
+/-- tests: the exotic strings — `A##` = [`A#`, obligatory nothing]; `!#` = obligatory anything; `!!A` = `A`; `#A`, `A!` rejected -/
+example : ((compile ([65, 35, 35] : Bytes) 0 false).toOption.map Pattern.codes) = some [67108865, 67108864] ∧
+    ((compile ([33, 35] : Bytes) 0 false).toOption.map Pattern.codes) = some [134217727] ∧
+    ((compile ([33, 33, 65] : Bytes) 0 false).toOption.map Pattern.codes) = some [1] ∧
+    ((compile ([35, 65] : Bytes) 0 false).toOption.map Pattern.codes) = none ∧
+    ((compile ([65, 33] : Bytes) 0 false).toOption.map Pattern.codes) = none := by decide
+
+/-! ## round 2 — circular sequences in `AllMatches` / `BestMatch` (known finding D35): exact characterisation -/
+
+/-- **`AllMatches` panics iff** some hit kept by `FilterBestMatch` has to be re-aligned (indel mode, at least one error) and its
+fragment start `start - 2·err` lies beyond the end of the LINEAR sequence (the Go slice `seq[start:end]`, `end = min(…, len)`).
+On a linear sequence this never happens (`allMatches_total`); on a circular one the hits live in the buffer extended by
+`min(len, 64)` symbols. -/
+theorem allMatches_circular_panic_iff (P : Pattern) (seq : Bytes) (circular : Bool) (begin length : Int)
+    (hm1 : 1 ≤ P.patlen) (hc : P.patlen ≤ P.cpat.length) :
+    allMatches P seq circular begin length = .panic ↔
+      ∃ h ∈ filterBestMatch P seq circular begin length,
+        h.2.2 > 0 ∧ P.hasIndel = true ∧ (seq.length : Int) < h.1 - h.2.2 * 2 :=
+  allMatches_panic_iff P seq circular begin length hm1 hc
+
+/-- **exact and mismatch-only mode are not affected**: `AllMatches` is `FilterBestMatch`, on circular sequences too (hits in the
+extension are passed as they are, `findAllIndex_exact_circular` says what they are) -/
+theorem allMatches_mismatch_is_filter (P : Pattern) (seq : Bytes) (circular : Bool) (begin length : Int)
+    (hmode : P.hasIndel = false ∨ P.maxerr = 0) :
+    allMatches P seq circular begin length = .ok (filterBestMatch P seq circular begin length) :=
+  allMatches_passthrough P seq circular begin length hmode
+
+/-- **the affected class**: a kept hit of a circular sequence that ends inside the linear part is re-aligned without panic; a
+kept hit with errors (indel mode) that reaches into the circular extension either makes `AllMatches` panic or is replaced by
+a span of the LINEAR sequence ending before the hit's end — the occurrence across the origin itself is never reported. -/
+theorem allMatches_circular_affected (P : Pattern) (seq : Bytes) (begin length : Int)
+    (hm1 : 1 ≤ P.patlen) (hc : P.patlen ≤ P.cpat.length)
+    (h : Hit) (hh : h ∈ filterBestMatch P seq true begin length) :
+    ((h.2.1 ≤ (seq.length : Int)) → allMatchStep P seq h ≠ none) ∧
+    (0 < h.2.2 → P.hasIndel = true → (seq.length : Int) < h.2.1 →
+      (allMatchStep P seq h = none ∧ (seq.length : Int) < h.1 - h.2.2 * 2) ∨
+      (h.1 - h.2.2 * 2 ≤ (seq.length : Int) ∧
+        ∃ x, allMatchStep P seq h = some x ∧ 0 ≤ x.1 ∧ x.1 ≤ x.2.1 ∧ x.2.1 ≤ (seq.length : Int) ∧ x.2.1 < h.2.1 ∧
+          SpanDist P seq x)) :=
+  allMatches_circular_step P seq begin length hm1 hc h hh
+
+/-- **a hit that ends inside the linear part is handled as on a linear sequence**: whatever list it comes from, a hit
+`(e - m, e, k)`, `0 < k`, `e ≤ len`, witnessed by a substring `seq[a:e]` within `k` compiled edits, is re-aligned into a span with
+at most `k` errors, its exact `_samenuc` distance, minimal over its fragment (`allMatchStep_keeps`; on a circular sequence the
+witness of a raw hit ending at `e ≤ len` is a substring of the linear sequence since the extended buffer starts with it). -/
+theorem allMatches_circular_inside_ok (P : Pattern) (seq : Bytes) (h : Hit) (a e k : Nat)
+    (hi : P.hasIndel = true) (hk : h.2.2 = (k : Int)) (hk0 : 0 < k) (hend : h.2.1 = h.1 + P.patlen) (he : h.2.1 = (e : Int))
+    (hen : e ≤ seq.length) (hm1 : 1 ≤ P.patlen) (hC : Compat P) (ha : a ≤ e)
+    (hd : editDist accepts P.codes (((seq.map encodeByte).drop a).take (e - a)) ≤ k) :
+    ∃ x, allMatchStep P seq h = some x ∧ 0 ≤ x.2.2 ∧ x.2.2 ≤ h.2.2 ∧ SpanDist P seq x :=
+  let ⟨x, h1, h2, h3, h4, _⟩ := allMatchStep_keeps P seq h a e k hi hk hk0 hend he hen hm1 hC ha hd
+  ⟨x, h1, h2, h3, h4⟩
+
+/-- **`BestMatch` on a circular sequence** never panics and answers "no match" exactly when there is no hit, or when the
+leftmost hit of minimal error count reaches into the circular extension — even if other hits lie inside, in every mode
+(or, unreachable, when a hit that is not re-aligned starts before the sequence) -/
+theorem bestMatch_circular_char (P : Pattern) (seq : Bytes) (begin length : Int)
+    (hm1 : 1 ≤ P.patlen) (hc : P.patlen ≤ P.cpat.length) (hmax : P.maxerr < 10000) :
+    let res := findAllIndex P seq true begin length
+    bestMatch P seq true begin length ≠ .panic ∧
+    ((∃ s e k, bestMatch P seq true begin length = .ok (s, e, k, false)) ↔
+      (res = [] ∨ (seq.length : Int) < (bestOf res).2.1 ∨
+        ((bestOf res).1 < 0 ∧ ((bestOf res).2.2 = 0 ∨ P.hasIndel = false)))) :=
+  Apat.bestMatch_circular_char P seq begin length hm1 hc hmax
+
+/-- counterexamples (sample evaluations of the model, same results on the real code: D35): pattern `ACGT`, budget 1, indels.
+(i) the only occurrence straddles the origin: reported by `FindAllIndex`, dropped by `AllMatches`, "no match" for `BestMatch`;
+(ii) an occurrence INSIDE the linear part of a circular sequence is reported a second time in the extension and that second
+report makes `AllMatches` panic; (iii) `BestMatch` answers "no match" because the best hit straddles the origin although
+another hit lies inside, in indel and in mismatch-only mode. -/
+theorem circular_counterexamples :
+    (withACGT 1 true (fun P => findAllIndex P seqJunction true 0 (-1)) = some [(68, 72, 1)] ∧
+     withACGT 1 true (fun P => allMatches P seqJunction true 0 (-1)) = some (.ok []) ∧
+     withACGT 1 true (fun P => bestMatch P seqJunction true 0 (-1)) = some (.ok (0, 72, 1, false))) ∧
+    (withACGT 1 true (fun P => allMatches P seqInside false 0 (-1)) = some (.ok [(10, 14, 1)]) ∧
+     withACGT 1 true (fun P => filterBestMatch P seqInside true 0 (-1)) = some [(9, 13, 1), (79, 83, 1)] ∧
+     withACGT 1 true (fun P => allMatches P seqInside true 0 (-1)) = some .panic) ∧
+    (withACGT 1 true (fun P => bestMatch P seqBoth true 0 (-1)) = some (.ok (0, 72, 0, false)) ∧
+     withACGT 1 true (fun P => bestMatch P seqBoth false 0 (-1)) = some (.ok (4, 8, 1, true)) ∧
+     withACGT 1 false (fun P => bestMatch P seqBoth true 0 (-1)) = some (.ok (0, 72, 0, false))) :=
+  ⟨⟨circular_junction_hit_dropped.1, circular_junction_hit_dropped.2.2.1, circular_junction_hit_dropped.2.2.2⟩,
+   ⟨circular_allMatches_panics.1, circular_allMatches_panics.2.1, circular_allMatches_panics.2.2.1⟩,
+   ⟨circular_bestMatch_misses_inside_hit.2.1, circular_bestMatch_misses_inside_hit.2.2.1,
+    circular_bestMatch_misses_inside_hit.2.2.2.2.2.1⟩⟩
 
 end ObiVerif.Props.C10
